@@ -1200,9 +1200,18 @@ class Printer:
         if k == 'NullStmt':
             return f'{p};\n'
         if k == 'SwitchStmt':
+            parts = list(inner)
+            pre = ''
+            if n.get('hasInit'):
+                # switch (init; cond): the init statement is scoped to the switch, printed as `{ init; switch (cond) .. }`
+                pre = self.stmt(parts.pop(0), ind + 1)
+            if n.get('hasVar') or len(parts) != 2:
+                raise Unsupported('switch with a condition variable')
             self.in_switch = getattr(self, 'in_switch', 0) + 1
-            s = f'{p}switch ({self.cond(inner[0])})\n' + self.block(inner[1], ind)
+            s = f'{p}switch ({self.cond(parts[0])})\n' + self.block(parts[1], ind)
             self.in_switch -= 1
+            if pre:
+                s = f'{p}{{\n{pre}' + ''.join('  ' + ln + '\n' for ln in s.rstrip('\n').split('\n')) + f'{p}}}\n'
             return s
         if k == 'CaseStmt':
             return f'{p}case {self.expr(inner[0])}:\n' + self.stmt(inner[1], ind + 1)
